@@ -312,8 +312,16 @@ fn main() {
         let all_text_p = texts.iter().map(|t| t.0.clone()).collect::<Vec<_>>().join(" ;; ");
         let all_text_i = texts.iter().map(|t| t.1.clone()).collect::<Vec<_>>().join(" ;; ");
         let mut push = |cases: &mut Vec<Case>, label: &str, outs_p: &[Outcome], outs_i: &[Outcome], final_p: &str, final_i: &str, pre: &str| {
+            // an (admissible) error of the parameterised run where the inlined statement went through leaves the
+            // two stores in different states: later statements are no longer comparable
+            let cut = outs_p.iter().zip(outs_i.iter()).position(|(a, b)| a.rows.is_err() != b.rows.is_err());
             for (k, (op, oi)) in outs_p.iter().zip(outs_i.iter()).enumerate() {
-                let last = k + 1 == outs_p.len();
+                if let Some(c) = cut {
+                    if k > c {
+                        break;
+                    }
+                }
+                let last = k + 1 == outs_p.len() && cut.is_none();
                 let (gp, gi) = if last { (final_p, final_i) } else { ("-|-", "-|-") };
                 cases.push(Case {
                     name: format!("{}:{}", label, steps[k].0),
